@@ -4,10 +4,15 @@ package bufimageutil
 // Small images (messages, nested enum, map field, service with two methods, extension) are filtered with every
 // include/exclude choice from a small name set; the result must (a) still link, (b) contain no excluded element,
 // (c) keep every included element, (d) be a fixpoint of the same filter.
+// For obligations of includeType (VERIF_REPLAY_FUNC=includeType) a second sample image with extensions (message-, enum- and
+// scalar-typed, top-level and nested) is filtered with every include-one-extension / exclude-one-type choice and a few
+// neighbours (include the extendee, include a plain message): an included element must be in the result or the filter must be
+// rejected with an error naming it; re-applying the include part of the filter to the result must change nothing.
 
 import (
 	"fmt"
 	"os"
+	"sort"
 	"strings"
 	"testing"
 
@@ -65,12 +70,18 @@ func vcNames(img bufimage.Image) map[string]bool {
 				for _, e := range m.EnumType {
 					out[n+"."+e.GetName()] = true
 				}
+				for _, x := range m.Extension {
+					out[n+"."+x.GetName()] = true
+				}
 				walk(n, m.NestedType)
 			}
 		}
 		walk(pkg, f.MessageType)
 		for _, e := range f.EnumType {
 			out[pkg+"."+e.GetName()] = true
+		}
+		for _, x := range f.Extension {
+			out[pkg+"."+x.GetName()] = true
 		}
 		for _, s := range f.Service {
 			out[pkg+"."+s.GetName()] = true
@@ -82,6 +93,106 @@ func vcNames(img bufimage.Image) map[string]bool {
 	return out
 }
 
+// vcExtImage: a.proto (proto2) {message M{extensions 100 to 200; optional U u=1;} message T{} message U{} enum K{K_A=1;}
+// message Other{extend M{optional T n=103;}} extend M{optional T e=100; optional K k=101; optional int32 s=102;}}
+func vcExtImage(t *testing.T) bufimage.Image {
+	lbl := descriptorpb.FieldDescriptorProto_LABEL_OPTIONAL.Enum()
+	msgT := descriptorpb.FieldDescriptorProto_TYPE_MESSAGE.Enum()
+	enumT := descriptorpb.FieldDescriptorProto_TYPE_ENUM.Enum()
+	int32T := descriptorpb.FieldDescriptorProto_TYPE_INT32.Enum()
+	fd := &descriptorpb.FileDescriptorProto{
+		Name: proto.String("a.proto"), Package: proto.String("pkg"), Syntax: proto.String("proto2"),
+		MessageType: []*descriptorpb.DescriptorProto{
+			{Name: proto.String("M"), ExtensionRange: []*descriptorpb.DescriptorProto_ExtensionRange{{Start: proto.Int32(100), End: proto.Int32(200)}},
+				Field: []*descriptorpb.FieldDescriptorProto{{Name: proto.String("u"), Number: proto.Int32(1), Label: lbl, Type: msgT, TypeName: proto.String(".pkg.U")}}},
+			{Name: proto.String("T")},
+			{Name: proto.String("U")},
+			{Name: proto.String("Other"), Extension: []*descriptorpb.FieldDescriptorProto{
+				{Name: proto.String("n"), Number: proto.Int32(103), Label: lbl, Type: msgT, TypeName: proto.String(".pkg.T"), Extendee: proto.String(".pkg.M")},
+			}},
+		},
+		EnumType: []*descriptorpb.EnumDescriptorProto{{Name: proto.String("K"), Value: []*descriptorpb.EnumValueDescriptorProto{{Name: proto.String("K_A"), Number: proto.Int32(1)}}}},
+		Extension: []*descriptorpb.FieldDescriptorProto{
+			{Name: proto.String("e"), Number: proto.Int32(100), Label: lbl, Type: msgT, TypeName: proto.String(".pkg.T"), Extendee: proto.String(".pkg.M")},
+			{Name: proto.String("k"), Number: proto.Int32(101), Label: lbl, Type: enumT, TypeName: proto.String(".pkg.K"), Extendee: proto.String(".pkg.M")},
+			{Name: proto.String("s"), Number: proto.Int32(102), Label: lbl, Type: int32T, Extendee: proto.String(".pkg.M")},
+		},
+	}
+	f, err := bufimage.NewImageFile(fd, nil, uuid.Nil, fd.GetName(), "", false, false, nil)
+	if err != nil {
+		t.Fatal(err)
+	}
+	img, err := bufimage.NewImage([]bufimage.ImageFile{f})
+	if err != nil {
+		t.Fatal(err)
+	}
+	return img
+}
+
+// vcReplayIncludeExtension: obligations of includeType. Every filter {include X, exclude Y} with X an extension (or, as
+// neighbours, the extendee / a plain message) and Y a message or enum of the image (or nothing).
+func vcReplayIncludeExtension(t *testing.T, report func(format string, a ...any)) int {
+	if _, err := protodesc.NewFiles(bufimage.ImageToFileDescriptorSet(vcExtImage(t))); err != nil {
+		t.Fatalf("the sample image does not link: %v", err)
+	}
+	includes := []string{"pkg.e", "pkg.k", "pkg.s", "pkg.Other.n", "pkg.M", "pkg.T"}
+	excludes := []string{"", "pkg.T", "pkg.K", "pkg.U", "pkg.M", "pkg.Other"}
+	tried := 0
+	for _, inc := range includes {
+		for _, exc := range excludes {
+			if inc == exc {
+				continue
+			}
+			opts := []ImageFilterOption{WithIncludeTypes(inc)}
+			desc := "include " + inc
+			if exc != "" {
+				opts = append(opts, WithExcludeTypes(exc))
+				desc += " exclude " + exc
+			}
+			tried++
+			out, err := FilterImage(vcExtImage(t), opts...)
+			if err != nil {
+				// rejecting the filter because the included element itself needs the excluded one is legitimate
+				if !strings.Contains(err.Error(), strconvQuote(inc)) {
+					report("filter {%s}: FilterImage fails although every name exists: %v", desc, err)
+				}
+				continue
+			}
+			if _, err := protodesc.NewFiles(bufimage.ImageToFileDescriptorSet(out)); err != nil {
+				report("filter {%s}: the filtered image no longer links: %v", desc, err)
+				continue
+			}
+			have := vcNames(out)
+			if exc != "" && have[exc] {
+				report("filter {%s}: excluded element %s is still present", desc, exc)
+			}
+			if !have[inc] {
+				report("filter {%s}: err == nil but included element %s is missing from the filtered image (which holds %s)", desc, inc, vcSorted(have))
+				continue
+			}
+			// the include part of the filter applied to the result: nothing left to remove
+			again, err := FilterImage(out, WithIncludeTypes(inc))
+			if err != nil {
+				report("filter {%s}: re-applying include %s to the result fails: %v", desc, inc, err)
+			} else if !proto.Equal(bufimage.ImageToFileDescriptorSet(out), bufimage.ImageToFileDescriptorSet(again)) {
+				report("filter {%s}: re-applying include %s to the result changes it: %s became %s", desc, inc, vcSorted(have), vcSorted(vcNames(again)))
+			}
+		}
+	}
+	return tried
+}
+
+func strconvQuote(s string) string { return fmt.Sprintf("%q", s) }
+
+func vcSorted(m map[string]bool) string {
+	var names []string
+	for n := range m {
+		names = append(names, n)
+	}
+	sort.Strings(names)
+	return "[" + strings.Join(names, " ") + "]"
+}
+
 func TestVerifReplayC12(t *testing.T) {
 	found := 0
 	report := func(format string, a ...any) {
@@ -89,6 +200,13 @@ func TestVerifReplayC12(t *testing.T) {
 			fmt.Printf("VERIF-REPLAY FAILING-INPUT "+format+"\n", a...)
 		}
 		found++
+	}
+	if os.Getenv("VERIF_REPLAY_FUNC") == "includeType" {
+		tried := vcReplayIncludeExtension(t, report)
+		if found == 0 {
+			fmt.Printf("VERIF-REPLAY no failing input found for %s (%d include/exclude filters on the sample image with extensions)\n", os.Getenv("VERIF_REPLAY_FUNC"), tried)
+		}
+		return
 	}
 	names := []string{"pkg.Req", "pkg.Resp", "pkg.Other", "pkg.Foo", "pkg.Foo.Kind", "pkg.Bar", "pkg.Svc", "pkg.Svc.Do"}
 	tried := 0
